@@ -6,14 +6,17 @@ package server
 
 import (
 	"bufio"
+	"bytes"
 	"context"
 	"crypto/tls"
+	"encoding/pem"
 	"fmt"
 	"net/http"
 	"os"
 	"strings"
 	"testing"
 	"testing/synctest"
+	"time"
 
 	"golang.org/x/crypto/acme/autocert"
 	"pgregory.net/rapid"
@@ -268,6 +271,82 @@ func c16Check(w *vfWorld, r *Router, m *vfModel, p c16Plan, res *vfResult, ctx s
 	return true
 }
 
+// c16Handshakes: real TLS handshakes against the proxy's own HTTPS server (Server.startHTTPServers on the
+// in-memory network): a name bound to a service with a static certificate gets exactly that certificate and
+// a request sent over the connection is treated as an HTTPS request (forwarded, not redirected); any other
+// name - and a hello without a name - fails the handshake. Names whose root service has automatic TLS are
+// left out (a handshake would contact the ACME directory).
+func c16Handshakes(w *vfWorld, r *Router, m *vfModel, p c16Plan, res *vfResult, ctx string, frontHost string) bool {
+	w.front(r, frontHost+":80")
+	pemBytes, err := os.ReadFile(vfFix.cert)
+	if err != nil {
+		res.failf("harness", "fixture certificate: %v", err)
+		return false
+	}
+	block, _ := pem.Decode(pemBytes)
+	for _, sni := range p.SNIs {
+		name, _ := vfRefRoute(m.specs(), sni, "/")
+		s := m.Svcs[name]
+		wantCert := sni != "" && s != nil && s.Opt.TLS != 0
+		if s != nil && s.Opt.TLS == 2 {
+			continue
+		}
+		if real := r.serviceForHost(sni); real != nil {
+			if _, auto := real.certManager.(*autocert.Manager); auto {
+				continue // c16Check reports this; never let it reach the network
+			}
+		}
+		sctx := fmt.Sprintf("%s: TLS handshake with server name %q (root service %q)", ctx, sni, name)
+		conn, err := w.net.DialFrom(context.Background(), c13ClientIP, frontHost+":443")
+		if err != nil {
+			res.failf("harness", "%s: dial: %v", sctx, err)
+			return false
+		}
+		conn.SetDeadline(time.Now().Add(10 * time.Second))
+		tc := tls.Client(conn, &tls.Config{ServerName: sni, InsecureSkipVerify: true, NextProtos: []string{"http/1.1"}})
+		herr := tc.Handshake()
+		switch {
+		case wantCert && herr != nil:
+			conn.Close()
+			res.failf("handshake-fails-for-bound-name", "%s: want the service's certificate, the handshake failed: %v", sctx, herr)
+			return false
+		case !wantCert && herr == nil:
+			conn.Close()
+			res.failf("handshake-succeeds-for-unbound-name", "%s: the handshake succeeded although the name is not bound to a TLS-enabled service", sctx)
+			return false
+		case !wantCert:
+			conn.Close()
+			res.label("handshake-refused")
+			continue
+		}
+		if pcs := tc.ConnectionState().PeerCertificates; len(pcs) == 0 || !bytes.Equal(pcs[0].Raw, block.Bytes) {
+			conn.Close()
+			res.failf("wrong-certificate", "%s: the certificate served is not the one the service was deployed with", sctx)
+			return false
+		}
+		// a request over the connection is an HTTPS request: forwarded (or answered per the service's state), never redirected
+		if s.State == "running" && !m.tlsAmbiguous(s) {
+			fmt.Fprintf(tc, "GET /hs HTTP/1.1\r\nHost: %s\r\nConnection: close\r\n\r\n", sni)
+			resp, rerr := http.ReadResponse(bufio.NewReader(tc), nil)
+			if rerr != nil {
+				conn.Close()
+				res.failf("https-request-failed", "%s: request over the TLS connection: %v", sctx, rerr)
+				return false
+			}
+			resp.Body.Close()
+			if resp.StatusCode != 200 || !vfContains(s.Active, resp.Header.Get("X-Vf-Target")) {
+				conn.Close()
+				res.failf("https-request-not-forwarded", "%s: a request over the TLS connection got %d (Location %q, target %q), want 200 from %v", sctx, resp.StatusCode, resp.Header.Get("Location"), resp.Header.Get("X-Vf-Target"), s.Active)
+				return false
+			}
+			res.label("https-request-over-real-handshake")
+		}
+		conn.Close()
+		res.label("handshake-served-static-certificate")
+	}
+	return true
+}
+
 func c16Run(t *testing.T, p c16Plan) (res vfResult) {
 	vfBubble(t, func(w *vfWorld) {
 		vfSetupWorldTargets(w)
@@ -297,6 +376,9 @@ func c16Run(t *testing.T, p c16Plan) (res vfResult) {
 		if !vfCheckList(r, m, &res, "after refused wildcard deploy") {
 			return
 		}
+		if !c16Handshakes(w, r, m, p, &res, "final state", "front") {
+			return
+		}
 		if p.Restart {
 			raw, err := os.ReadFile(r.statePath)
 			if err != nil {
@@ -311,7 +393,7 @@ func c16Run(t *testing.T, p c16Plan) (res vfResult) {
 				return
 			}
 			synctest.Wait()
-			if !vfCheckList(r2, m, &res, "after restart") || !c16Check(w, r2, m, p, &res, "after restart") {
+			if !vfCheckList(r2, m, &res, "after restart") || !c16Check(w, r2, m, p, &res, "after restart") || !c16Handshakes(w, r2, m, p, &res, "after restart", "front2") {
 				return
 			}
 			res.label("restart")
